@@ -61,7 +61,7 @@ def generate(ctx):
             ("hist", max(1, cnt["hist"] // ctx.nshards))]
     for group, n in plan:
         for i in range(n):
-            yield {"group": group, "rseed": int(rng.integers(0, 2**31)), "exact": bool((group == "reg" and i % 5 == 0) or (group == "inf" and i % 6 == 1) or (group == "full" and i % 4 == 1)),
+            yield {"group": group, "rseed": int(rng.integers(0, 2**31)), "exact": bool((group == "reg" and i % 5 == 0) or (group == "inf" and i % 6 == 1) or (group == "full" and (i % 4 == 1 or (n == 1 and ctx.shard % 4 == 1)))),
                    "norun": bool(group == "reg" and i % 8 == 3)}
 
 
